@@ -73,6 +73,7 @@ def run(chk):
         "model Qty/Model.v: qeq (impl PartialEq for Quantity), pcmp (partial_cmp_preserve_nan), vm_cmp (vm.rs opcodes)",
         "Gen/PreludeUnits.v generated from the hook dump on every run",
         "correspondence: coqc vm_compute of Qty.Exec.r_eq / r_ne / r_cmp / r_vmcmp vs harness qty (direct calls and interpret)",
+        "float-exact level: Qty/FloatExact.v instantiates the same model with the kernel's binary64 floats (PrimFloat; powi ported from compiler-rt; pow only as pow(x,1), pow(x,0), pow(1,y)) and must predict the implementation's answers on rounding-level ties and special magnitudes bit for bit",
         "f64 replica of the one-sided conversion for one-factor units (tools/props/qtylib.py replica_convert): used by the known-finding matcher",
     ]
     quick = chk.tier == "quick"
@@ -156,7 +157,7 @@ def run(chk):
         pos += 1
 
     violations, known_hits = [], collections.defaultdict(list)
-    panics = replica_checked = replica_wrong = nan_after_conv = 0
+    panics = replica_checked = replica_wrong = nan_after_conv = float_cases = 0
     items, idx = [], []
     for n, c in enumerate(cases):
         e1, e2, ne, c1, c2, qb = c["obs"]
@@ -202,6 +203,14 @@ def run(chk):
                 replica_wrong += 1
                 violations.append((c, "f64 replica of the one-sided conversion predicts %s, implementation %s"
                                    % (rep, (e1.b, e2.b, c1.c, c2.c)), False))
+        # the f64 replica INSIDE Coq (Qty/FloatExact.v, kernel floats): must predict the implementation bit for bit
+        if (near or c["kind"].startswith("special")) and tbl.float_unit_supported(c["ua"]) and tbl.float_unit_supported(c["ub"]) \
+                and (not quick or float_cases < 900):
+            float_cases += 1
+            qa_f, qb_f = tbl.coq_qF(c["va"], c["ua"]), tbl.coq_qF(qb.bits, c["ub"])
+            for (fn, x, y, ob) in (("rf_eq", qa_f, qb_f, e1), ("rf_eq", qb_f, qa_f, e2), ("rf_cmp", qa_f, qb_f, c1), ("rf_cmp", qb_f, qa_f, c2)):
+                items.append(("%s PF_env %s %s" % (fn, x, y), ob.expected_model_string()))
+                idx.append(n)
         for tag, why in bad:
             matched = None
             if tag in ("eq", "ord") and near and c["ua"] != c["ub"] and rep == (e1.b, e2.b, c1.c, c2.c):
@@ -317,7 +326,7 @@ def run(chk):
         "case_kinds": dict(kinds), "operator_sources": len(srcs),
         "asymmetric_known": {k: len(v) for k, v in known_hits.items()},
         "replica_checked_ties": replica_checked, "replica_mispredictions": replica_wrong,
-        "panics": panics, "nan_after_conversion_cases": nan_after_conv,
+        "float_exact_coq_cases": float_cases, "panics": panics, "nan_after_conversion_cases": nan_after_conv,
         "model_evaluations": len(items), "model_mismatches": len(mism), "oracle_failures": len(real),
         "oracle_failure_kinds": dict(collections.Counter(v[0].get("kind", "operator-source") for v in real)),
         "samples": [{"lines": cases[i]["lines"][:5], "implementation": [o.raw for o in cases[i]["obs"][:5]]}
